@@ -680,12 +680,25 @@ class Sim:
             def now(cls, tz=None):
                 return _real_datetime.datetime.fromtimestamp(sim.clock, tz=tz)
 
-        class DatetimeMod:
-            datetime = _DT
-            UTC = _real_datetime.UTC
-            timezone = _real_datetime.timezone
-            timedelta = _real_datetime.timedelta
-            date = _real_datetime.date
+            @classmethod
+            def utcnow(cls):
+                return _real_datetime.datetime.fromtimestamp(sim.clock, tz=_real_datetime.UTC).replace(tzinfo=None)
+
+        class _ModProxy:
+            """Stands in for a stdlib module inside SDK modules: the clock-reading names are virtual, everything else is
+            the real module's."""
+            def __init__(self, real, overrides):
+                self.__dict__["_real"] = real
+                self.__dict__.update(overrides)
+
+            def __getattr__(self, name):
+                return getattr(self.__dict__["_real"], name)
+
+        _TimeShim = TimeMod
+        TimeMod = _ModProxy(_real_time, {"time": _TimeShim.time, "monotonic": _TimeShim.monotonic, "sleep": _TimeShim.sleep,
+                                         "time_ns": lambda: int(sim.clock * 1e9), "monotonic_ns": lambda: int(sim.clock * 1e9),
+                                         "perf_counter": _TimeShim.monotonic})
+        DatetimeMod = _ModProxy(_real_datetime, {"datetime": _DT})
 
         class ThreadingMod:
             pass
@@ -748,6 +761,16 @@ class Sim:
             (sdk_models, "threading", self.ThreadingMod),
             (sdk_models, "time", self.TimeMod),
         ]
+        # any SDK module that holds the real `time` / `datetime` module under that name reads the virtual clock instead
+        # (also a module that did not import it when this list was written)
+        listed = {(id(m), a) for m, a, _ in patches}
+        for name, mod in list(sys.modules.items()):
+            if mod is None or not name.startswith("aws_durable_execution_sdk_python"):
+                continue
+            if getattr(mod, "time", None) is _real_time and (id(mod), "time") not in listed:
+                patches.append((mod, "time", self.TimeMod))
+            if getattr(mod, "datetime", None) is _real_datetime and (id(mod), "datetime") not in listed:
+                patches.append((mod, "datetime", self.DatetimeMod))
         saved = [(m, a, getattr(m, a)) for m, a, _ in patches]
         for m, a, v in patches:
             setattr(m, a, v)
